@@ -1114,55 +1114,64 @@ func (m *Manager) ConvertToWatchingOnly(ns walletdb.ReadWriteBucket) error {
 		return maybeConvertDbError(err)
 	}
 
-	// Lock the manager to remove all clear text private key material from
-	// memory if needed.
-	if !m.IsLocked() {
-		m.lock()
-	}
+	// The in-memory part of the conversion is done once the database
+	// update has been committed: a rolled back conversion must not leave a
+	// manager that believes it is watching-only over a database that is not.
+	ns.Tx().OnCommit(func() {
+		m.mtx.Lock()
+		defer m.mtx.Unlock()
 
-	// This section clears and removes the encrypted private key material
-	// that is ordinarily used to unlock the manager.  Since the the manager
-	// is being converted to watching-only, the encrypted private key
-	// material is no longer needed.
-
-	// Clear and remove all of the encrypted acount private keys.
-	for _, manager := range m.scopedManagers {
-		for _, acctInfo := range manager.acctInfo {
-			zero.Bytes(acctInfo.acctKeyEncrypted)
-			acctInfo.acctKeyEncrypted = nil
+		// Lock the manager to remove all clear text private key material from
+		// memory if needed.
+		if !m.IsLocked() {
+			m.lock()
 		}
-	}
 
-	// Clear and remove encrypted private keys and encrypted scripts from
-	// all address entries.
-	for _, manager := range m.scopedManagers {
-		for _, ma := range manager.addrs {
-			switch addr := ma.(type) {
-			case *managedAddress:
-				zero.Bytes(addr.privKeyEncrypted)
-				addr.privKeyEncrypted = nil
-			case *scriptAddress:
-				zero.Bytes(addr.scriptEncrypted)
-				addr.scriptEncrypted = nil
+		// This section clears and removes the encrypted private key material
+		// that is ordinarily used to unlock the manager.  Since the the manager
+		// is being converted to watching-only, the encrypted private key
+		// material is no longer needed.
+
+		// Clear and remove all of the encrypted acount private keys.
+		for _, manager := range m.scopedManagers {
+			for _, acctInfo := range manager.acctInfo {
+				zero.Bytes(acctInfo.acctKeyEncrypted)
+				acctInfo.acctKeyEncrypted = nil
 			}
 		}
-	}
 
-	// Clear and remove encrypted private and script crypto keys.
-	zero.Bytes(m.cryptoKeyScriptEncrypted)
-	m.cryptoKeyScriptEncrypted = nil
-	m.cryptoKeyScript = nil
-	zero.Bytes(m.cryptoKeyPrivEncrypted)
-	m.cryptoKeyPrivEncrypted = nil
-	m.cryptoKeyPriv = nil
+		// Clear and remove encrypted private keys and encrypted scripts from
+		// all address entries.
+		for _, manager := range m.scopedManagers {
+			for _, ma := range manager.addrs {
+				switch addr := ma.(type) {
+				case *managedAddress:
+					zero.Bytes(addr.privKeyEncrypted)
+					addr.privKeyEncrypted = nil
+				case *scriptAddress:
+					zero.Bytes(addr.scriptEncrypted)
+					addr.scriptEncrypted = nil
+				}
+			}
+		}
 
-	// The master private key is derived from a passphrase when the manager
-	// is unlocked, so there is no encrypted version to zero.  However,
-	// it is no longer needed, so nil it.
-	m.masterKeyPriv = nil
+		// Clear and remove encrypted private and script crypto keys.
+		zero.Bytes(m.cryptoKeyScriptEncrypted)
+		m.cryptoKeyScriptEncrypted = nil
+		m.cryptoKeyScript = nil
+		zero.Bytes(m.cryptoKeyPrivEncrypted)
+		m.cryptoKeyPrivEncrypted = nil
+		m.cryptoKeyPriv = nil
 
-	// Mark the manager watching-only.
-	m.watchingOnly.Store(true)
+		// The master private key is derived from a passphrase when the manager
+		// is unlocked, so there is no encrypted version to zero.  However,
+		// it is no longer needed, so nil it.
+		m.masterKeyPriv = nil
+
+		// Mark the manager watching-only.
+		m.watchingOnly.Store(true)
+	})
+
 	return nil
 
 }
